@@ -41,6 +41,16 @@ Definition strip_char (c : N) (s : str) : str := rstrip_chars (N.eqb c) (lstrip_
 Definition normalize_title_quotes (t : str) : str :=
   [dq] ++ str_replace [dq] [bsl; dq] t ++ [dq].
 
+(* re.sub(r"[ \t]+", " ", s): runs of spaces and tabs become one space *)
+Fixpoint collapse_blanks_aux (s : str) (in_run : bool) : str :=
+  match s with
+  | [] => []
+  | c :: r =>
+      if N.eqb c 32 || N.eqb c 9 then (if in_run then collapse_blanks_aux r true else sp :: collapse_blanks_aux r true)
+      else c :: collapse_blanks_aux r false
+  end.
+Definition collapse_blanks (s : str) : str := collapse_blanks_aux s false.
+
 Definition truthy (o : option str) : bool := match o with Some (_ :: _) => true | _ => false end.
 
 (* _link_destination: empty, containing whitespace or with unbalanced parentheses -> <...> *)
@@ -156,7 +166,7 @@ Section Render.
             let link_title := if truthy title then Some (normalize_title_quotes (match title with Some x => x | None => [] end)) else None in
             match find_label dest link_title with
             | Some label =>
-                if str_eqb label t then ([91%N] ++ label ++ [93%N], c')
+                if str_eqb label (strip (collapse_ws t)) then ([91%N] ++ label ++ [93%N], c')
                 else ([91%N] ++ t ++ [93; 91]%N ++ label ++ [93%N], c')
             | None =>
                 let tt := match link_title with Some x => [sp] ++ x | None => [] end in
@@ -235,7 +245,7 @@ Section Render.
     | [] => ([], cur)
     | c :: r => let '(t, c1) := render_inls false c cur in
                 let '(ts, c2) := render_cells r c1 in
-                (str_replace [124%N] [bsl; 124%N] t :: ts, c2)
+                (str_replace [124%N] [bsl; 124%N] (strip_char sp (collapse_blanks t)) :: ts, c2)
     end.
   Definition render_row (cells : list (list inl)) (cur : str) : str * str :=
     let '(ts, c') := render_cells cells cur in
@@ -260,7 +270,7 @@ Section Render.
         ret (w ++ [nlc], set_cur [] (next_prefix st))
     | LHeading _ level c =>
         let '(t0, _) := render_inls true c [] in
-        let t := escape_closing_hashes (join_soft_breaks None t0) in
+        let t := escape_closing_hashes (strip_char sp (collapse_blanks (join_soft_breaks None t0))) in
         let st := set_cur [] st in
         if endswith t [bsl] then
           ret (r_prefix st ++ hashes level ++ [sp] ++ t ++ [nlc], next_prefix st)
